@@ -326,7 +326,7 @@ func NewStringType() Type {
 		signatureIDL: "str",
 		typeName:     jen.String(),
 		marshal: func(id string, writer string) *Statement {
-			return jen.Id("basic.WriteString").Call(jen.Id(id),
+			return jen.Qual("github.com/lugu/qiloop/type/basic", "WriteString").Call(jen.Id(id),
 				jen.Id(writer))
 		},
 		unmarshal: func(reader string) *Statement {
